@@ -241,6 +241,20 @@ func (it *Interp) textModel(st *state, name string, c *ssa.CallCommon, args []Va
 			}
 			return TupleV{r, ErrV{isd}}, true
 		}
+		if s.Sym && len(s.Chars) == 1 && s.Chars[0].Hex != nil {
+			// the lowercase hexadecimal character of a nibble: a decimal digit iff the nibble is at most 9
+			nb := s.Chars[0].Hex
+			isd := it.T.Not(it.T.And(nb[3], it.T.Or(nb[2], nb[1])))
+			r := it.constBV(0, 64)
+			for i := 0; i < 4; i++ {
+				r.B[i] = it.T.And(isd, nb[i])
+			}
+			r.Signed = true
+			if isd == it.T.one || it.EquivUnderPremise(isd, it.T.one) {
+				return TupleV{r, NilV{}}, true
+			}
+			return TupleV{r, ErrV{isd}}, true
+		}
 		if s.Known && len(s.S) == 1 && s.S[0] >= '0' && s.S[0] <= '9' {
 			return TupleV{it.constBV(uint64(s.S[0]-'0'), 64).signed(), NilV{}}, true
 		}
@@ -476,12 +490,22 @@ func (it *Interp) textModel(st *state, name string, c *ssa.CallCommon, args []Va
 		if ok1 && ok2 && s.Known && sub.Known {
 			return it.constBV(uint64(int64(strings.Index(s.S, sub.S))), 64).signed(), true
 		}
-		// a symbolic text: decidable when no character can be the one looked for
+		// a symbolic text: decidable when, in order, every character either cannot be the one looked
+		// for (also under the premise on the sources: a decimal digit is never the filler 'f') or is it
 		if ok1 && ok2 && s.Sym && sub.Known && len(sub.S) == 1 {
-			for _, ch := range s.Chars {
-				if !cannotBe(ch, sub.S[0]) {
-					return it.topBV(64).signed(), true
+			for i, ch := range s.Chars {
+				if cannotBe(ch, sub.S[0]) {
+					continue
 				}
+				if eq, ok := it.compareHexChar(ch, uint64(sub.S[0])); ok {
+					if eq == it.T.one {
+						return it.constBV(uint64(i), 64).signed(), true
+					}
+					if it.EquivUnderPremise(eq, it.T.zero) {
+						continue
+					}
+				}
+				return it.topBV(64).signed(), true
 			}
 			return it.constBV(^uint64(0), 64).signed(), true
 		}
@@ -555,6 +579,52 @@ func (it *Interp) textModel(st *state, name string, c *ssa.CallCommon, args []Va
 				return s, true
 			}
 		}
+		if (name == "strings.TrimRight" || name == "strings.TrimLeft" || name == "strings.Trim") && ok1 && ok2 && cut.Known && (s.Sym || s.Known) {
+			// cutset trimming: from either end, a character is dropped when it must be one of the cutset
+			// and trimming stops when it can be none of them (under the premise); anything else is open
+			if cs, okC := toCharsOf(it, s); okC {
+				inSet := func(ch BV) (must, cannot bool) {
+					cannot = true
+					for i := 0; i < len(cut.S); i++ {
+						m, c := it.charIs(ch, cut.S[i])
+						if m {
+							return true, false
+						}
+						cannot = cannot && c
+					}
+					return false, cannot
+				}
+				lo, hi, decided := 0, len(cs), true
+				if name != "strings.TrimLeft" {
+					for hi > lo {
+						m, c := inSet(cs[hi-1])
+						if m {
+							hi--
+							continue
+						}
+						decided = c
+						break
+					}
+				}
+				if decided && name != "strings.TrimRight" {
+					for lo < hi {
+						m, c := inSet(cs[lo])
+						if m {
+							lo++
+							continue
+						}
+						decided = c
+						break
+					}
+				}
+				if decided {
+					if s.Known {
+						return StrV{Known: true, S: s.S[lo:hi]}, true
+					}
+					return StrV{Sym: true, Chars: cs[lo:hi]}, true
+				}
+			}
+		}
 		it.unsup("%s of a text whose length would depend on its symbolic contents", name)
 		return OpaqueV{"trimmed text"}, true
 	case "strings.HasSuffix", "strings.HasPrefix", "strings.Contains", "strings.EqualFold":
@@ -575,11 +645,24 @@ func (it *Interp) textModel(st *state, name string, c *ssa.CallCommon, args []Va
 			return it.constBV(uint64(b2i(r)), 1), true
 		}
 		return nil, false
-	case "strings.IndexByte":
+	case "strings.IndexByte", "strings.IndexRune":
 		a, ok1 := args[0].(StrV)
 		c, ok2 := args[1].(BV)
 		if cv, isC := c.IsConst(); ok1 && ok2 && a.Known && isC {
 			return it.constBV(uint64(int64(strings.IndexByte(a.S, byte(cv)))), 64).signed(), true
+		}
+		if cv, isC := c.IsConst(); ok1 && ok2 && a.Sym && isC {
+			// as strings.Index with a one-character pattern
+			for i, ch := range a.Chars {
+				must, cannot := it.charIs(ch, byte(cv))
+				if must {
+					return it.constBV(uint64(i), 64).signed(), true
+				}
+				if !cannot {
+					return it.topBV(64).signed(), true
+				}
+			}
+			return it.constBV(^uint64(0), 64).signed(), true
 		}
 		return nil, false
 	case "strings.ToLower", "strings.ToUpper", "strings.TrimSpace":
@@ -738,6 +821,40 @@ func (it *Interp) textModel(st *state, name string, c *ssa.CallCommon, args []Va
 		return OpaqueV{"formatted text"}, true
 	}
 	return nil, false
+}
+
+// charIs: whether the abstract character must be / cannot be the constant c, on every assignment of
+// the sources that satisfies the premise.
+func (it *Interp) charIs(ch BV, c byte) (must, cannot bool) {
+	if v, isC := ch.IsConst(); isC && ch.Hex == nil {
+		return byte(v) == c, byte(v) != c
+	}
+	if cannotBe(ch, c) {
+		return false, true
+	}
+	var eq *Node
+	if ch.Hex != nil {
+		eq, _ = it.compareHexChar(ch, uint64(c))
+	} else if ch.W == 8 && !ch.HasTop() {
+		eq = it.T.one
+		for i := 0; i < 8; i++ {
+			bit := ch.B[i]
+			if c>>uint(i)&1 == 0 {
+				bit = it.T.Not(bit)
+			}
+			eq = it.T.And(eq, bit)
+		}
+	}
+	if eq == nil {
+		return false, false
+	}
+	if it.EquivUnderPremise(eq, it.T.one) {
+		return true, false
+	}
+	if it.EquivUnderPremise(eq, it.T.zero) {
+		return false, true
+	}
+	return false, false
 }
 
 // compareChar: c == constant character, for hex-tagged characters.
